@@ -472,6 +472,10 @@ func (u *Unit) builtin(st *State, v ssa.Value, b *ssa.Builtin, c *ssa.CallCommon
 		dn, ds, _, _ := u.mapHeaps(c.Args[0].Type())
 		dh := u.heap(st, dn, ds)
 		u.setHeap(st, dn, ds, ite(eq(m, "0"), dh, sx("store", dh, m, sx("store", sx("select", dh, m), k, "false"))))
+	case "ssa:wrapnilchk":
+		p := u.val(st, c.Args[0])
+		u.safety(st, "nilderef", not(eq(p, "0")), instr.Pos())
+		st.regs[v] = p
 	case "print", "println":
 	case "min", "max":
 		a, bb := u.val(st, c.Args[0]), u.val(st, c.Args[1])
@@ -494,9 +498,9 @@ func (u *Unit) mapLen(st *State, mt types.Type, m Term) Term {
 	fn := "mapcard$" + mangle(string(ks))
 	if !u.s.declared["c:"+fn] {
 		u.s.declFun(fn, []Sort{arrSort(ks, SBool)}, SInt)
-		u.s.assume(fmt.Sprintf("(forall ((d %s)) (! (>= (%s d) 0) :pattern ((%s d))))", arrSort(ks, SBool), fn, fn))
-		u.s.assume(fmt.Sprintf("(= (%s ((as const %s) false)) 0)", fn, arrSort(ks, SBool)))
-		u.s.assume(fmt.Sprintf("(forall ((d %s) (k %s)) (! (=> (select d k) (> (%s d) 0)) :pattern ((%s d) (select d k))))", arrSort(ks, SBool), ks, fn, fn))
+		u.s.assumeGlobal(fmt.Sprintf("(forall ((d %s)) (! (>= (%s d) 0) :pattern ((%s d))))", arrSort(ks, SBool), fn, fn))
+		u.s.assumeGlobal(fmt.Sprintf("(= (%s ((as const %s) false)) 0)", fn, arrSort(ks, SBool)))
+		u.s.assumeGlobal(fmt.Sprintf("(forall ((d %s) (k %s)) (! (=> (select d k) (> (%s d) 0)) :pattern ((%s d) (select d k))))", arrSort(ks, SBool), ks, fn, fn))
 	}
 	return ite(eq(m, "0"), "0", sx(fn, sx("select", u.heap(st, dn, ds), m)))
 }
